@@ -11,6 +11,7 @@ import (
 	"encoding/json"
 	"flag"
 	"fmt"
+	"hash/fnv"
 	"math/rand"
 	"os"
 	"runtime/pprof"
@@ -668,6 +669,8 @@ func (w *W) runBuild(cc *caseCtx, c *Case, nv int) {
 
 // ---- the range tree ---------------------------------------------------------------------------------------
 
+type seeded struct{ seed int64 }
+
 type treeState struct {
 	tree  *sql.MySQLRangeColumnExprTree
 	abs   string // the abstract state the real tree is believed to be in ("?" = unknown)
@@ -706,7 +709,7 @@ func (w *W) materialise(rs []Rng, nv int, rng *rand.Rand) *sql.MySQLRangeColumnE
 	return tree
 }
 
-func (w *W) runTree(cc *caseCtx, c *Case, ts *treeState, behaviours bool, rng *rand.Rand) {
+func (w *W) runTree(cc *caseCtx, c *Case, ts *treeState, behaviours bool, rng seeded) {
 	k, nv := c.K, c.NV
 	ctx := w.ctx
 	// behaviours mode: continue on the history-dependent real tree while its abstract state is the
@@ -714,7 +717,12 @@ func (w *W) runTree(cc *caseCtx, c *Case, ts *treeState, behaviours bool, rng *r
 	cont := behaviours && ts.valid && ts.abs == absOf(c.Pre)
 	if !cont {
 		ts.tree = nil
-		cc.guarded("Tree.materialise", func() { ts.tree = w.materialise(c.Pre, nv, rng) })
+		// insertion order: seeded by the run's seed and the state itself, so that a re-run of the
+		// same records alone builds the same tree
+		h := fnv.New64a()
+		h.Write([]byte(absOf(c.Pre)))
+		mrng := rand.New(rand.NewSource(rng.seed ^ int64(h.Sum64()>>1)))
+		cc.guarded("Tree.materialise", func() { ts.tree = w.materialise(c.Pre, nv, mrng) })
 		cc.c.mu.Lock()
 		cc.c.treeMat++
 		cc.c.mu.Unlock()
@@ -967,7 +975,7 @@ func main() {
 		go func() {
 			w := &W{ctx: sql.NewEmptyContext()}
 			ts := &treeState{}
-			rng := rand.New(rand.NewSource(*seed))
+			rng := seeded{*seed}
 			// In -simulate output TLC prints every candidate successor of a step (one group of
 			// consecutive records with the same step); the behaviour continues from the candidate
 			// whose post-state is the pre-state of the next group.  Queries do not change the tree,
